@@ -408,6 +408,32 @@ def oracle(ctx):
               "quad:mixed-params", {"params": "(tensor with grad, python float, tensor without grad)"})
     histories(lambda: solve_ivp(lambda t, y, a_, c_, b_: -a_ * y * c_ + b_ * t, torch.linspace(0, 1, 4, dtype=DT), torch.ones(3, dtype=DT), params=(am, 0.5, bm), method="rk4"),
               [am], "solve_ivp:mixed-params", {"params": "(tensor with grad, python float, tensor without grad)"})
+    # a LONG-LIVED user operator that holds one tensor under two attribute names (tied weights) over a training loop: the backward pass
+    # swaps clones into the operator and must put the originals back under EVERY name (round-6 seed C19/15: restored with setparams
+    # instead of setuniqueparams - the second name kept the clone of each iteration)
+    class TiedOperator(xt.LinearOperator):
+        def __init__(self, w):
+            super().__init__(shape=(w.shape[0], w.shape[0]), is_hermitian=True, dtype=w.dtype, device=w.device)
+            self.w_enc = w
+            self.w_dec = w
+
+        def _mv(self, x):
+            return torch.matmul(torch.matmul(x, self.w_enc), self.w_dec.t()) + x
+
+        def _getparamnames(self, prefix=""):
+            return [prefix + "w_enc", prefix + "w_dec"]
+    wt_ = (torch.randn(12, 3, dtype=DT, generator=torch.Generator().manual_seed(5)) * 0.3).requires_grad_()
+    Atied = TiedOperator(wt_)
+    Bt_ = torch.randn(12, 2, dtype=DT, generator=torch.Generator().manual_seed(6))
+    histories(lambda: solve(Atied, Bt_, method="cg", posdef=True, rtol=1e-10, atol=1e-12), [wt_],
+              "solve:long-lived-tied-operator", {"operator": "one tensor under two attribute names, re-used over the loop", "method": "cg"})
+    # (a clone kept under the second name is replaced by the next iteration's clone: the COUNT is stationary after the first call; what
+    # stays reachable is seen directly)
+    ctx.count(("leak", "solve:long-lived-tied-operator", "identity"), nontrivial=True)
+    if Atied.w_enc is not wt_ or Atied.w_dec is not wt_:
+        ctx.fail("oracle", "leak:solve:long-lived-tied-operator:clone-kept", {"operator": "one tensor under two attribute names", "method": "cg"},
+                 {"w_enc_is_callers": Atied.w_enc is wt_, "w_dec_is_callers": Atied.w_dec is wt_},
+                 "after the calls the operator references the caller's tensor under both names (a tensor allocated during a call stays reachable otherwise)")
     a = torch.tensor([0.7, 1.1, 0.4], dtype=DT, requires_grad=True)
     b = torch.tensor([0.2, -0.3, 0.5], dtype=DT, requires_grad=True)
     z = torch.zeros(3, dtype=DT)
